@@ -1,19 +1,20 @@
 #!/usr/bin/env python3
-"""seedtable.py : markdown table of /verif/seeded/*/meta.json for DESIGN.md §7.4"""
-import json, glob, os
-rows = []
-for m in sorted(glob.glob('/verif/seeded/*/meta.json')):
-    d = json.load(open(m))
-    rows.append(d)
-print("| seeded change | property | needs | first run | now | violation keys (first) |")
-print("|---|---|---|---|---|---|")
+"""seedtable.py : regenerate the table rows of DESIGN.md §7.4 from /verif/seeded/*/meta.json (keeps the prose around it)."""
+import json, glob, os, re
+rows = [json.load(open(m)) for m in sorted(glob.glob('/verif/seeded/*/meta.json'))]
+out = ["| seed | what it needs to manifest | first run | now | caught by (first keys) |", "|---|---|---|---|---|"]
+word = {1: 'caught', 0: 'MISSED', 2: 'driver crash'}
 for d in rows:
     tag = f"{d['property']}-{d['tag']}"
-    log = f"/verif/seeded/{tag}/check.log"
-    keys = []
+    log = f"/verif/seeded/{tag}/check.log"; keys = []
     if os.path.exists(log):
-        for ln in open(log):
-            if ln.startswith("VIOLATION"):
-                keys.append(ln.split("key=")[-1].strip())
+        keys = [ln.split("key=")[-1].strip() for ln in open(log) if ln.startswith("VIOLATION")]
     first = d.get('check_exit_first_run', d['check_exit'])
-    print(f"| `seeded/{tag}` | {d['property']} | {d.get('needs','')} | {'detected' if first==1 else 'MISSED'} | {'detected' if d['check_exit']==1 else 'MISSED'} | {', '.join('`'+k[:70]+'`' for k in keys[:2])} |")
+    by = d.get('detected_by', d['property'])
+    out.append(f"| {tag} | {d.get('needs','')} | {word.get(first, first)} | {word.get(d['check_exit'], d['check_exit'])} | {by}: " + ", ".join('`' + k[:60] + '`' for k in keys[:2]) + " |")
+p = '/verif/DESIGN.md'
+s = open(p).read()
+s2 = re.sub(r"\| seed \| what it needs to manifest \|.*?\n\n", "\n".join(out) + "\n\n", s, count=1, flags=re.S)
+open(p, 'w').write(s2)
+n1 = sum(1 for d in rows if d.get('check_exit_first_run', d['check_exit']) == 1); n2 = sum(1 for d in rows if d['check_exit'] == 1)
+print(f"{len(rows)} seeds, caught at first run {n1}, caught now {n2}")
